@@ -2,7 +2,7 @@
    and from that: swap, invariance under injective renaming, value 1 at zero conditional entropy,
    range [0,1]. *)
 From Coq Require Import List ZArith Reals Bool Arith Lia Lra Permutation Sorted.
-From SC Require Import Base.Num C15.Model C15.ProofsBasic.
+From SC Require Import Base.Num C15.Model C15.ProofsBasic C15.ProofsCM.
 Import ListNotations.
 Local Open Scope R_scope.
 
@@ -103,7 +103,7 @@ Lemma contingency_value_form a b : length a = length b ->
   contingency_matrix a b
   = Some (map (fun u => map (fun w => cnt2 (combine a b) u w) (usort b)) (usort a)).
 Proof.
-  intros Hl. unfold contingency_matrix. rewrite Hl, Nat.ltb_irrefl. unfold unique_with_indices.
+  intros Hl. rewrite contingency_matrix_closed. rewrite Hl, Nat.ltb_irrefl.
   f_equal.
   rewrite <- (map_nth_seq (fun u => map (fun w => cnt2 (combine a b) u w) (usort b)) 0%Z (usort a)).
   apply map_ext_in. intros r Hr. apply in_seq in Hr.
@@ -306,7 +306,7 @@ Qed.
 Lemma entropy_value_form a :
   entropy ROps a = if Reqb (Hlab a) 0 then None else Some (Hlab a).
 Proof.
-  unfold entropy, bincounts. change (count_occ Z.eq_dec a) with (na a). rewrite sum_na.
+  unfold entropy, entropy_of_counts, bincounts. change (count_occ Z.eq_dec a) with (na a). rewrite sum_na.
   cbn [o0 oeqb osub omul odiv oln ROps].
   set (t := fun c : nat => ofn ROps c / ofn ROps (length a) * (ln (ofn ROps c) - ln (ofn ROps (length a)))).
   rewrite (fold_left_cond_minus t).
